@@ -494,7 +494,13 @@ def _guard_per_alternative(an, f, g, node, ev, obj):
     if not picks:
         return None
     found = None
+    here = []
+    for t0, p0, _ in g.dominating_conditions(node):
+        if p0 in ("true", "false"):
+            here += atoms_of(t0, p0 == "true", norm_text)
     for lst, conds in picks:
+        if any((t4, not p4) in here for t4, p4 in conds):
+            continue               # the helper cannot pick this list where the add stands (the kind test around it says otherwise)
         ok = None
         for test, pol, br in g.dominating_conditions(node):
             if pol != "false":
